@@ -447,9 +447,7 @@ def check(ctx: Ctx) -> None:
         ob.site(f_sf, f_sf.node, "source prefixed by co_firstlineno - 1 newlines", ok=ok, returning_paths=nret)
         if not ok:
             ob.violation(f_sf, f_sf.node, "the function source is not prefixed by co_firstlineno - 1 newlines: remote tracebacks would name wrong lines")
-        co = [x for x in repo.own_nodes(f_sf) if isinstance(x, ast.Assign) and unparse(x.targets[0]) == "codeobj"]
-        if not co or unparse(co[0].value) != "function.__code__":
-            ob.violation(f_sf, f_sf.node, "the line number is not taken from the function's own code object")
+        # (that the line number is the function's own code object's is part of PAD above: <param>.__code__.co_firstlineno)
         dd = [c for c in repo.calls_in(f_sf) if unparse(c.func) == "textwrap.dedent"]
         if len(dd) != 1:
             ob.violation(f_sf, f_sf.node, "nested function source is not dedented before compilation")
